@@ -233,6 +233,10 @@ func genTrace(r *hx.Rng, eng string, n int, small bool) trace {
 			nb[s]++
 			pend[s] = true
 		case c < 78:
+			if len(made[s]) == 0 && !r.Chance(0.15) {
+				tr.ops = append(tr.ops, wr(s)) // nothing to restore yet
+				continue
+			}
 			k, _ := pick(s)
 			tr.ops = append(tr.ops, op{kind: "R", s: s, t: k.t, i: k.i})
 			if r.Chance(0.3) {
